@@ -453,6 +453,24 @@ class Engine:
                     return self._refine_callres(res, v.v, sat, st)
         return st
 
+    def _is_static_address(self, v, depth=0):
+        """v is the address of (part of) a local variable or a global object"""
+        v = strip_casts(v) if v.kind == "cexpr" else v
+        if v.kind == "global":
+            return True
+        if v.kind == "cexpr" and v.v == "getelementptr" and v.args:
+            return self._is_static_address(v.args[0], depth + 1)
+        if v.kind != "reg" or depth > 6:
+            return False
+        d = self.fn.defs.get(v.v)
+        if d is None:
+            return False
+        if d.op == "alloca":
+            return True
+        if d.op in ("bitcast", "getelementptr") and d.ops:
+            return self._is_static_address(d.ops[0], depth + 1)
+        return False
+
     def _refine_cond(self, res, c, taken, st, depth):
         fn = self.fn
         if c.kind == "int":
@@ -490,6 +508,14 @@ class Engine:
                             (xd is not None and xd.op == "phi" and len(xd.x["incoming"]) == 1 and xd.type == "i32"):
                         same = (pred == "ne") == (y.v == 0)
                         return self._refine_cond(res, x, taken if same else not taken, st, depth + 1)
+        # a block from the allocator is never the address of a local or of a global: `if (p != stackbuf) free(p)`
+        if pred in ("eq", "ne") and res.fail != "neg":
+            for x, y in ((a, bb), (bb, a)):
+                if is_res(res, x) and self._is_static_address(y):
+                    equal_edge = (pred == "eq") == taken
+                    if equal_edge:
+                        return frozenset(t for t in st if (t if isinstance(t, str) else t[0]) not in ("O", "F", "P", "M"))
+                    return st
         # null-ness of the resource itself
         for x, y in ((a, bb), (bb, a)):
             if is_res(res, x) and (y.kind == "null" or (y.kind == "int")):
@@ -553,6 +579,23 @@ class Engine:
             if d.op in ("sext", "zext", "trunc", "bitcast") and d.ops[0].kind == "reg":
                 reg = d.ops[0].v
                 continue
+            if d.op == "load":
+                # the call's result kept in a local slot / field of a local struct and read back (single source)
+                path = self.P.path(d.ops[0])
+                srcs = set()
+                for s_ in self.fn.instrs():
+                    if s_.op == "store" and self.P.path(s_.ops[1]) == path:
+                        v = s_.ops[0]
+                        hops = 0
+                        while v.kind == "reg" and v.v in self.fn.defs and self.fn.defs[v.v].op == "bitcast" and hops < 4:
+                            v = self.fn.defs[v.v].ops[0]
+                            hops += 1
+                        srcs.add(v.v if v.kind == "reg" else None)
+                if len(srcs) == 1 and None not in srcs:
+                    nxt = next(iter(srcs))
+                    if self._is_local_slot(d.ops[0]) or path.split("->")[0].split(".")[0].split("[")[0] in {i.res for i in self.fn.instrs() if i.op == "alloca"}:
+                        reg = nxt
+                        continue
             return None
         return None
 
